@@ -336,5 +336,6 @@ func (p UserinfoFromReqPart) SetUserinfoFromRequest(_ context.Context, userinfo 
 	}
 	s.mu.Lock()
 	defer s.mu.Unlock()
+	s.noteScopes("SetUserinfoFromRequest", scopes)
 	return s.setUserinfo(userinfo, subject, clientID, scopes)
 }
